@@ -3,6 +3,7 @@ package main
 import (
 	"bufio"
 	"bytes"
+	"errors"
 	"io"
 
 	pk "github.com/Tnze/go-mc/net/packet"
@@ -179,12 +180,36 @@ func (r *reentrantWriter) Write(p []byte) (int, error) {
 	return r.sink.Write(p)
 }
 
+// limitedWriter accepts room bytes in all and answers the Write that does not fit with (what fitted, errFull):
+// a full disk, a closed pipe, a bufio.Writer whose flush fails. The count an encoder reports must be the
+// number of bytes that reached the writer.
+type limitedWriter struct {
+	sink sinkWriter
+	room int
+}
+
+var errFull = errors.New("verif: writer is full")
+
+func (l *limitedWriter) Write(p []byte) (int, error) {
+	k := len(p)
+	if k > l.room {
+		k = l.room
+	}
+	l.sink.Write(p[:k])
+	l.room -= k
+	if k < len(p) {
+		return k, errFull
+	}
+	return k, nil
+}
+
 // writers is the per-worker set of reusable writer objects.
 type writers struct {
 	sink sinkWriter
 	bb   bytes.Buffer
 	bw   *bufio.Writer
 	re   reentrantWriter
+	lim  limitedWriter
 }
 
 func (w *writers) open(kind int) io.Writer {
